@@ -76,7 +76,7 @@ func stripLocalSyms(g Guard) (Guard, bool) {
 	for _, alt := range g.Alts {
 		var na []string
 		for _, s := range alt {
-			if strings.HasPrefix(s, "param:") || strings.HasPrefix(s, "local:") {
+			if strings.HasPrefix(s, "param:") || strings.HasPrefix(s, "param#") || s == "recv" || strings.HasPrefix(s, "local:") || strings.HasPrefix(s, "local<-") {
 				continue
 			}
 			na = append(na, s)
